@@ -171,29 +171,7 @@ func Pair(t *rapid.T, m *big.Int, label string) (a, b *big.Int, kind string) {
 		// b's internal (Montgomery) limbs are a's with a small edit: one bit flipped, one limb replaced, a
 		// limb xor-ed with a subset of its neighbour's bits, two limbs swapped.  These are the unequal pairs a
 		// limb-wise comparison that drops, repeats or mis-combines a limb calls equal.
-		la := ref.Limbs(am)
-		for try := 0; try < 8; try++ {
-			lb := la
-			i := rapid.IntRange(0, 3).Draw(t, label+"_mlimb")
-			switch Sampled([]string{"bit", "bit", "limb", "subset-of-neighbour", "swap", "two-bits"}).Draw(t, label+"_medit") {
-			case "bit":
-				lb[i] ^= 1 << uint(rapid.IntRange(0, 63).Draw(t, label+"_mbit"))
-			case "two-bits":
-				lb[i] ^= 1 << uint(rapid.IntRange(0, 63).Draw(t, label+"_mbit"))
-				lb[rapid.IntRange(0, 3).Draw(t, label+"_mlimb2")] ^= 1 << uint(rapid.IntRange(0, 63).Draw(t, label+"_mbit2"))
-			case "limb":
-				lb[i] = rapid.Uint64().Draw(t, label+"_mval")
-			case "subset-of-neighbour":
-				lb[i] ^= la[i^1] & rapid.Uint64().Draw(t, label+"_mmask")
-			case "swap":
-				j := rapid.IntRange(0, 3).Draw(t, label+"_mlimb2")
-				lb[i], lb[j] = lb[j], lb[i]
-			}
-			if bm := ref.FromLimbs(lb); bm.Cmp(m) < 0 && bm.Cmp(am) != 0 {
-				b = ref.FromM(bm, m)
-				break
-			}
-		}
+		b = MontNear(t, m, a, label)
 		if b == nil {
 			kind = PairBitFlip
 			b = new(big.Int).Xor(a, one)
@@ -224,4 +202,35 @@ func Pair(t *rapid.T, m *big.Int, label string) (a, b *big.Int, kind string) {
 		b = Int256(t, m, label+"_b")
 	}
 	return a, b, kind
+}
+
+// MontNear returns a value != a whose internal (Montgomery, R = 2^256) limbs are a's with a small edit: one bit
+// flipped, one limb replaced, a limb xor-ed with a subset of its neighbour's bits, two limbs swapped.  These are
+// the unequal pairs a limb-wise comparison that drops, repeats or mis-combines a limb calls equal.  nil if eight
+// draws all left the range [0, m).
+func MontNear(t *rapid.T, m, a *big.Int, label string) *big.Int {
+	am := ref.ToM(a, m)
+	la := ref.Limbs(am)
+	for try := 0; try < 8; try++ {
+		lb := la
+		i := rapid.IntRange(0, 3).Draw(t, label+"_mlimb")
+		switch Sampled([]string{"bit", "bit", "limb", "limb", "subset-of-neighbour", "swap", "two-bits"}).Draw(t, label+"_medit") {
+		case "bit":
+			lb[i] ^= 1 << uint(rapid.IntRange(0, 63).Draw(t, label+"_mbit"))
+		case "two-bits":
+			lb[i] ^= 1 << uint(rapid.IntRange(0, 63).Draw(t, label+"_mbit"))
+			lb[rapid.IntRange(0, 3).Draw(t, label+"_mlimb2")] ^= 1 << uint(rapid.IntRange(0, 63).Draw(t, label+"_mbit2"))
+		case "limb":
+			lb[i] = rapid.Uint64().Draw(t, label+"_mval")
+		case "subset-of-neighbour":
+			lb[i] ^= la[i^1] & rapid.Uint64().Draw(t, label+"_mmask")
+		case "swap":
+			j := rapid.IntRange(0, 3).Draw(t, label+"_mlimb2")
+			lb[i], lb[j] = lb[j], lb[i]
+		}
+		if bm := ref.FromLimbs(lb); bm.Cmp(m) < 0 && bm.Cmp(am) != 0 {
+			return ref.FromM(bm, m)
+		}
+	}
+	return nil
 }
